@@ -32,7 +32,7 @@ def run(tier):
             gstates += g['distinct']
             gtrans += g['generated']
             gens.append({'module': mod, 'cfg': cfgt % 'quick', 'distinct_states': g['distinct'], 'cases': len(take)})
-        for gm in ('Gen_Mods',):
+        for gm in ('Gen_Mods', 'Gen_Ranges'):
             g, st = flow.generate(work, gm, gm + '.cfg')
             for s in st:
                 cases.append({'api': 'datetime', 'text': s['c']['text'], 'culture': s['c']['culture'], 'ref': s['c']['ref'], 'src': 'generated:' + gm})
